@@ -249,12 +249,26 @@ def _docs(tier):
     return _DOCS[tier]
 
 
+GRID_SLOTS = [1, 2, 3, 4, 5, 6, 7, 8, 9, 12, 16, 24, 32, 48, 64, 96, 192]
+
+
 def roots(tier, seed):
     n = len(_docs(tier))
-    return [dict(start=s, stop=min(n, s + CHUNK)) for s in range(0, n, CHUNK)]
+    return [dict(start=s, stop=min(n, s + CHUNK)) for s in range(0, n, CHUNK)] + [dict(grid=k) for k in GRID_SLOTS]
+
+
+def check_grid(n, ctx):
+    """A note in EVERY slot of a package of n slots, tempo events in every second slot of a tempo package of n slots."""
+    doc = default_doc()
+    doc["ev"][0] = [(1, F(i, n), 3, "n0", None) for i in range(n)] + [(2, F(i, n), 4, "n0", None) for i in range(0, n, 2)] + [(1, F(i, n), 1, "b", 100.0 + 7 * i) for i in range(0, n, 2)]
+    finalize(doc)
+    run_doc(doc, dict(devs=[f"grid={n}"], elems=[]), dict(grid=n), ctx, ("ojn-grid", n))
 
 
 def explore(root, tier, ctx):
+    if "grid" in root:
+        check_grid(root["grid"], ctx)
+        return
     docs = _docs(tier)
     for i in range(root["start"], root["stop"]):
         devs, seq = docs[i]
@@ -262,7 +276,10 @@ def explore(root, tier, ctx):
 
 
 def replay(case, ctx):
-    check(tuple(tuple(x) for x in case["devs"]), tuple(case["seq"]), ctx)
+    if "grid" in case:
+        check_grid(case["grid"], ctx)
+    else:
+        check(tuple(tuple(x) for x in case["devs"]), tuple(case["seq"]), ctx)
 
 
 def close(a, b):
@@ -280,13 +297,20 @@ def check(devs, seq, ctx):
     if doc.get("_invalid"):
         ctx.extra["skipped_ill_formed_documents"] += 1
         return
+    ctx.depth(len(seq))
+    run_doc(doc, lab, dict(devs=[list(d) for d in devs], seq=list(seq)), ctx, ("ojn", devs, seq), nontrivial=bool(devs or seq))
+
+
+def run_doc(doc, lab, case, ctx, key, nontrivial=True):
+    from reamber.o2jam import O2JMapSet
+
+    devs = lab["devs"]
     pdoc = to_packages(doc)
     data = ro.encode(pdoc)
     den = ro.denote(pdoc)
-    case = dict(devs=[list(d) for d in devs], seq=list(seq), label=lab, bytes=data.hex())
+    case = dict(case, label=lab, bytes=data.hex())
     ctx.case()
-    ctx.state(("ojn", devs, seq), nontrivial=bool(devs or seq))
-    ctx.depth(len(seq))
+    ctx.state(key, nontrivial=nontrivial)
     if len(ctx.samples) < 1 and len(devs) == 2:
         ctx.sample(dict(label=lab, packages=[[(p["measure"], p["channel"], len(p["slots"])) for p in d] for d in pdoc["diffs"]]))
     tempo_events = [sum(1 for e in d if e[3] == "b") for d in doc["ev"]]
